@@ -263,3 +263,9 @@ Fixpoint py_first {X A} (xs : list X) (f : X -> res (option A)) : res (option A)
   | [] => Ok None
   | x :: r => o <- f x ;; match o with Some a => Ok (Some a) | None => py_first r f end
   end.
+
+(* a[a < c] = v, a /= b, np.cumsum *)
+Definition arr_mask_set (test : Q -> bool) (v : Q) (a : list Q) : list Q := map (fun x => if test x then v else x) a.
+Definition py_arr_div2 := py_arr_zip Qdiv.
+Definition arr_cumsum (l : list Q) : list Q :=
+  snd (fold_left (fun (st : Q * list Q) x => let s := Qred (fst st + x) in (s, snd st ++ [s])) l (0%Q, [])).
